@@ -754,7 +754,7 @@ pub fn rec_budget(args: &Args) {
     }
     // the client's Block2 preference has to survive from intercept_request to intercept_response of the same
     // exchange however many exchanges on other keys the server handles in between (a server that defers replies)
-    let crowd_sizes: Vec<usize> = if thorough { vec![1, 31, 32, 33, 64, 300, 1100] } else { vec![1, 31, 32, 33, 64, 300] };
+    let crowd_sizes: Vec<usize> = if thorough { vec![1, 31, 32, 33, 64, 300, 400] } else { vec![1, 31, 32, 33, 64, 300] };
     for (i, nother) in crowd_sizes.into_iter().enumerate() {
         let szx = [0u8, 2, 1][i % 3];
         let mut h = H::new(&mut out, 1152, 3_600_000, start);
